@@ -473,6 +473,16 @@ static void runProgram(const std::string& kind, double a, double b, double c,
     o.add("mergeTo", hvec(g.mergeToVert));
     Manifold m(g);
     hashMesh(o, "m.", m);
+  } else if (kind == "refcube") {
+    // Boolean of two finely refined cubes: the raw result has > 1e5 halfedges
+    // (FlagStore::run_par) and thousands of flagged short / collinear edges
+    // whose collapse order decides vertex and triangle counts
+    const Manifold A = Manifold::Cube(vec3(1.0), true).Refine(n);
+    const Manifold B = Manifold::Cube(vec3(1.0), true).Refine(n).Rotate(b, 2 * b, 3 * b).Translate(vec3(0.3, 0.2, 0.1));
+    Manifold r = A.Boolean(B, static_cast<OpType>((int)c));
+    o.add("numVert", r.NumVert());
+    o.add("numTri", r.NumTri());
+    hashMesh(o, "", r);
   } else if (kind == "dedupe") {
     Manifold m(sharedEdgeMesh(n));
     hashMesh(o, "", m);
